@@ -255,6 +255,8 @@ def check(run):
     run.guard(collectors, funcs)
     run.guard(BR.check_face_loops, funcs, 'C14')
     run.guard(BR.check_cell_loop, funcs, 'C14')
+    from . import staterules as SR
+    run.guard(SR.integrator_with_faces, funcs, 'C14')     # get_cell_at(i) / per-index data still address generator i after with_faces()
     run.assume('that the signed tetrahedra sum to the cell (global tiling), second moments and with/without-faces agreement need the whole float pipeline: outside')
     return run.finish(LEVEL, EXPLANATION, trusted=['rustc (type checking of the downstream crates)', 'rustc -Zunpretty=mir', 'z3 5.1.0 / 4.8.12, cvc5 1.0.3', 'glam / std models of mirsym'])
 
@@ -266,6 +268,9 @@ def replay(path):
         p = subprocess.run(['cargo', 'check', '--offline', '--target-dir', tgt], cwd=os.path.join(engine.VERIF, 'downstream', d['crate']), env=engine.ENV, capture_output=True, text=True)
         print(p.stderr[-800:])
         return 1 if p.returncode != 0 else 0
+    if d['kind'] == 'integrator_with_faces':
+        from . import staterules as SR
+        return SR.replay(d)
     if d['kind'] == 'withdata_alignment':
         bad = check_withdata_native(d)
         print(bad)
